@@ -16,6 +16,7 @@ MP = "EasyFEA.Models.InElastic._materialpoint"
 
 
 def run(ctx):
+    multiplier_column_rule(ctx)
     from ..shared import commit_idempotent_rule as _commit_idempotent_rule
 
     _commit_idempotent_rule(ctx, "R19.10")
@@ -524,3 +525,140 @@ def convergence_test_rule(ctx):
                     r.ok(f"{f.qualname}: {norm_text(n)[:70]}")
                 else:
                     r.fail(f.qualname, f"one-sided:{f.name}", f.file, n.lineno, f.name, f"`{norm_text(n)[:90]}` tests the signed extreme of the residual, not its magnitude over the batch: points whose residual has the other sign are declared converged and keep an out-of-balance state")
+
+
+# ---------------------------------------------------------------------------
+# R19.11  the multiplier column of the local Jacobian is the derivative of the residual with respect to dGamma
+# ---------------------------------------------------------------------------
+
+
+def _opaque_poly(expr, leafname):
+    """arithmetic AST -> Poly whose variables are the non-arithmetic leaves (subscripts, calls, attributes, names)"""
+    from ..alg import Poly, to_q
+
+    def go(e):
+        if isinstance(e, ast.BinOp) and isinstance(e.op, (ast.Add, ast.Sub, ast.Mult)):
+            a, b = go(e.left), go(e.right)
+            return a + b if isinstance(e.op, ast.Add) else a - b if isinstance(e.op, ast.Sub) else a * b
+        if isinstance(e, ast.BinOp) and isinstance(e.op, ast.Div) and isinstance(e.right, ast.Constant) and isinstance(e.right.value, (int, float)):
+            return go(e.left) * Poly.const(1 / to_q(e.right.value))
+        if isinstance(e, ast.UnaryOp) and isinstance(e.op, ast.USub):
+            return -go(e.operand)
+        if isinstance(e, ast.UnaryOp) and isinstance(e.op, ast.UAdd):
+            return go(e.operand)
+        if isinstance(e, ast.Constant) and isinstance(e.value, (int, float)) and not isinstance(e.value, bool):
+            return Poly.const(to_q(e.value))
+        return Poly.var(leafname(e))
+
+    return go(expr)
+
+
+def multiplier_column_rule(ctx):
+    from ..alg import Poly
+    from ..flow import Locals
+    import copy
+
+    repo = ctx.repo
+    r = ctx.rule("R19.11", "local Newton: the multiplier column of __Jacobian is d(residual)/d(dGamma) for every row that is polynomial in dGamma (flow rule, accumulated plastic strain, back-strains), with the state read at (committed + increment) on both sides", min_instances=3)
+    beh = repo.cls(BEH)
+    fR = repo.lookup_method(beh, beh.mangle("__Residual"))
+    fJ = repo.lookup_method(beh, beh.mangle("__Jacobian"))
+    if fR is None or fJ is None:
+        raise AnalysisError("R19.11: __Residual / __Jacobian not found")
+    jparams = set(fJ.params())
+    # names the residual hands over to the Jacobian (its return values that are parameters there): not expanded
+    shared = set()
+    for n in ast.walk(fR.node):
+        if isinstance(n, ast.Return) and isinstance(n.value, ast.Tuple):
+            shared |= {e.id for e in n.value.elts if isinstance(e, ast.Name) and e.id in jparams}
+
+    def expander(f):
+        L = Locals(f.node)
+        for nm in list(L.defs):
+            if nm in shared:
+                del L.defs[nm]
+        return L
+
+    LR, LJ = expander(fR), expander(fJ)
+
+    def nz_name(L):
+        return "nz"
+
+    def is_dG(e):
+        """u[..., nz] possibly followed by None axes"""
+        if isinstance(e, ast.Subscript) and isinstance(e.value, ast.Name) and e.value.id.startswith("u_"):
+            s = e.slice
+            elts = s.elts if isinstance(s, ast.Tuple) else [s]
+            core = [x for x in elts if not (isinstance(x, ast.Constant) and x.value is None) and not (isinstance(x, ast.Constant) and x.value is Ellipsis)]
+            return len(core) == 1 and isinstance(core[0], ast.Name) and core[0].id == "nz"
+        return False
+
+    def leafname(e):
+        if is_dG(e):
+            return "dG"
+        return norm_text(ast.fix_missing_locations(copy.deepcopy(e)))
+
+    def expand_keep_nz(L, e):
+        # nz is a plain local (layout.n): keep its name so that u[..., nz] stays recognisable
+        saved = L.defs.pop("nz", None)
+        try:
+            out = L.expand(e)
+        finally:
+            if saved is not None:
+                L.defs["nz"] = saved
+        return out
+
+    def rowkey(L, slot):
+        return norm_text(ast.fix_missing_locations(expand_keep_nz(L, slot)))
+
+    # residual rows
+    rows = {}
+    for n in ast.walk(fR.node):
+        tgt = val = None
+        if isinstance(n, ast.Assign) and len(n.targets) == 1:
+            tgt, val = n.targets[0], n.value
+        elif isinstance(n, ast.AugAssign):
+            tgt, val = n.target, n.value
+        if tgt is None or not (isinstance(tgt, ast.Subscript) and isinstance(tgt.value, ast.Name) and tgt.value.id.startswith("r_")):
+            continue
+        s = tgt.slice
+        elts = s.elts if isinstance(s, ast.Tuple) else [s]
+        core = [x for x in elts if not (isinstance(x, ast.Constant) and x.value is Ellipsis)]
+        if len(core) != 1:
+            continue
+        key = rowkey(LR, core[0])
+        p = _opaque_poly(expand_keep_nz(LR, val), leafname)
+        if isinstance(n, ast.AugAssign):
+            p = -p if isinstance(n.op, ast.Sub) else p
+            rows[key] = rows.get(key, Poly()) + p
+        else:
+            rows[key] = p
+    # Jacobian entries of the multiplier column
+    cols = {}
+    for n in ast.walk(fJ.node):
+        if isinstance(n, ast.Assign) and len(n.targets) == 1 and isinstance(n.targets[0], ast.Subscript) and isinstance(n.targets[0].value, ast.Name) and n.targets[0].value.id.startswith("J_"):
+            s = n.targets[0].slice
+            elts = s.elts if isinstance(s, ast.Tuple) else [s]
+            core = [x for x in elts if not (isinstance(x, ast.Constant) and x.value is Ellipsis)]
+            if len(core) == 2 and isinstance(core[1], ast.Name) and core[1].id == "nz":
+                cols[rowkey(LJ, core[0])] = (_opaque_poly(expand_keep_nz(LJ, n.value), leafname), n)
+    if not rows or not cols:
+        raise AnalysisError("R19.11: residual rows / Jacobian multiplier column not found")
+    for key, p in sorted(rows.items()):
+        # skip rows whose dependence on dG goes through an opaque function (rate law): R19.8 covers the scalar return
+        nonpoly = any("dG" != v and ("u_e_pg[..., nz]" in v) for v in p.vars())
+        want = p.diff("dG")
+        if key not in cols:
+            if want.is_zero() or nonpoly:
+                continue
+            r.instance(fn=fJ.qualname)
+            r.fail(fJ.qualname, f"multiplier-column:missing:{key[-30:]}", fJ.file, fJ.lineno, "Behavior.__Jacobian", f"row `{key}` of the residual depends on dGamma (d/ddGamma = {want!r}) but __Jacobian leaves J[{key}, nz] at zero")
+            continue
+        got, node = cols[key]
+        if nonpoly:
+            continue
+        r.instance(fn=fJ.qualname)
+        if (got - want).is_zero():
+            r.ok(f"J[{key[-40:]}, nz] == d r / d dGamma")
+        else:
+            r.fail(fJ.qualname, f"multiplier-column:{key[-30:]}", fJ.file, node.lineno, "Behavior.__Jacobian", f"J[{key}, nz] = {got!r} but d(residual row)/d(dGamma) = {want!r}: the tangent of the local Newton (and the algorithmic tangent built from it) is not the derivative of the residual once the committed state is not zero")
